@@ -19,9 +19,9 @@ from fractions import Fraction as Fr
 from lib.rat import F
 
 ID = "C07"
-QUICK_N = 400
+QUICK_N = 330
 THOROUGH_N = 15000
-QUICK_BUDGET_S = 75
+QUICK_BUDGET_S = 85
 THOROUGH_BUDGET_S = 900
 RULE = ("about 70% of the file cases go through O2JMapSet.read(bytes), the rest through O2JMapSet.read_file on a temporary .ojn (str and "
         "pathlib.Path); claim seq reads 2-3 files 2-5 times in one process through any entry point (same song id, same packages "
@@ -411,9 +411,9 @@ def gen(rng, tier, i):
                                                  0x00800000, 0x7F7FFFFF, 0x42F00000, rng.randrange(2 ** 32), rng.randrange(2 ** 32)]))
     if r < 0.06:
         return dict(claim="int", bytes=[rng.choice([0, 255, 128, 127, rng.randrange(256)]) for _ in range(4)])
-    if r < 0.16:
+    if r < 0.15:
         return gen_seq(rng, tier)
-    if r < 0.27:
+    if r < 0.25:
         return gen_sess(rng, tier)
     case = gen_file(rng, tier)
     case["via"] = rng.choice(["read", "read", "read", "read_file_str", "read_file_path"])
